@@ -18,9 +18,9 @@ TRUSTED_BASE = [
     "it is tied to `re` only by this correspondence run (random + small-scope exhaustive texts)",
     "coq/C22/Tables.v: the \\w and \\s code-point ranges of this interpreter (Unicode 15.0), extracted once; every range boundary is re-checked against `re` in the thorough tier",
     "html.escape / UTF-8 decoding as modelled and proved in C21",
-    "extra_params given as a callable is not modelled (only str)",
+    "extra_params callables are modelled as arbitrary functions in the theorems; the correspondence exercises three families (constant, startswith-test, wrap-the-href)",
 ]
-ASSUMPTIONS = ["extra_params is a str without '<' or '>' (it is raw HTML supplied by the caller); the structural theorems hold for any extra_params"]
+ASSUMPTIONS = ["string-level strip_tags/check_case statements: extra_params (str or callable result) brings no '<' or '>' (it is raw HTML supplied by the caller); the structural theorems hold for any extra_params"]
 RULE = ("texts built from URL-like fragments (protocols, slashes, hosts, paths around the 8/30/45 shortening cut points, '&' and quotes near the cuts, "
         "parentheses, trailing punctuation), separators, entities-as-text, Unicode letters/spaces/astral/lone surrogates, plus random malformed strings and "
         "invalid UTF-8 bytes; each text under all (shorten, require_protocol) combinations and rotating permitted_protocols / extra_params; thorough adds "
@@ -28,11 +28,43 @@ RULE = ("texts built from URL-like fragments (protocols, slashes, hosts, paths a
         "distinct by canonical JSON of the input; non-trivial = output contains a link, or a candidate URL was refused")
 
 PERMS = [["http", "https"], ["http"], [], ["ftp", "mailto", "http", "https"], ["javascript"], ["HTTP"], ["www", "a"], ["a", "http", "x-y", "\u0436"]]
-EXTRAS = ["", "", 'rel="nofollow"', ' class="external" ', "\u00a0id=a\t", " "]
+EXTRAS = ["", "", 'rel="nofollow"', ' class="external" ', "\u00a0id=a\t", " ",
+          {"f": "const", "s": 'rel="nofollow"'}, {"f": "const", "s": ""}, {"f": "const", "s": " \u00a0x=1\n"},
+          {"f": "prefix", "p": "http://www.", "a": 'class="internal"', "b": ' class="external" rel="nofollow" '},
+          {"f": "prefix", "p": "https:", "a": "", "b": "data-insecure"},
+          {"f": "wrap", "a": 'data-u="', "b": '" '}, {"f": "wrap", "a": "", "b": ""}]
 
 
-def mk(text, sh=False, extra="", req=False, perms=("http", "https"), is_bytes=False):
-    return {"k": "link", "text": text, "bytes": bool(is_bytes), "sh": bool(sh), "extra": extra, "req": bool(req), "perms": list(perms)}
+def extra_strings(x):
+    return [x] if isinstance(x, str) else [v for k, v in x.items() if k in ("s", "a", "b")]
+
+
+def extra_callable(x):
+    if isinstance(x, str):
+        return x
+    if x["f"] == "const":
+        return lambda href: x["s"]
+    if x["f"] == "prefix":
+        return lambda href: x["a"] if href.startswith(x["p"]) else x["b"]
+    if x["f"] == "wrap":
+        return lambda href: x["a"] + href + x["b"]
+    raise ValueError(x)
+
+
+def g_extra(x):
+    if isinstance(x, str):
+        return "(XSStr %s)" % G.gbytes(x)
+    if x["f"] == "const":
+        return "(XSConst %s)" % G.gbytes(x["s"])
+    if x["f"] == "prefix":
+        return "(XSPrefix %s %s %s)" % (G.gbytes(x["p"]), G.gbytes(x["a"]), G.gbytes(x["b"]))
+    return "(XSWrap %s %s)" % (G.gbytes(x["a"]), G.gbytes(x["b"]))
+
+
+def mk(text, sh=False, extra="", req=False, perms=("http", "https"), is_bytes=False, pset=False):
+    # pset: permitted_protocols is handed over as a set instead of a list (same model input)
+    return {"k": "link", "text": text, "bytes": bool(is_bytes), "sh": bool(sh), "extra": extra, "req": bool(req), "perms": list(perms),
+            "pset": bool(pset)}
 
 
 def run_impl(case):
@@ -42,8 +74,9 @@ def run_impl(case):
     from tornado.escape import linkify
     text = case["text"].encode("latin-1") if case["bytes"] else case["text"]
     try:
-        out = linkify(text, shorten=case["sh"], extra_params=case["extra"], require_protocol=case["req"],
-                      permitted_protocols=list(case["perms"]))
+        perms = set(case["perms"]) if case.get("pset") else list(case["perms"])
+        out = linkify(text, shorten=case["sh"], extra_params=extra_callable(case["extra"]), require_protocol=case["req"],
+                      permitted_protocols=perms)
     except UnicodeDecodeError:
         return G.Tag("UnicodeDecodeError")
     assert isinstance(out, str)
@@ -57,7 +90,7 @@ def coq_input(case):
         v = "(SBytes %s)" % G.gbytes(case["text"].encode("latin-1"))
     else:
         v = "(SStr %s)" % G.gbytes(case["text"])
-    return "(ILink %s %s %s %s %s)" % (v, G.gbool(case["sh"]), G.gbytes(case["extra"]), G.gbool(case["req"]),
+    return "(ILink %s %s %s %s %s)" % (v, G.gbool(case["sh"]), g_extra(case["extra"]), G.gbool(case["req"]),
                                        G.glist([G.gbytes(p) for p in case["perms"]], "(list N)"))
 
 
@@ -78,7 +111,8 @@ class _P(HTMLParser):
         self.items.append(("a", d.get("href") or ""))
 
     def handle_startendtag(self, tag, attrs):
-        self.bad = True
+        # "<a ... />" (params ending in "/"): browsers ignore the slash on a non-void element
+        self.handle_starttag(tag, attrs)
 
     def handle_endtag(self, tag):
         if tag != "a":
@@ -189,7 +223,7 @@ def py_check(case, o):
         return False
     if not isinstance(o, str):
         return False
-    if "<" in case["extra"] or ">" in case["extra"]:
+    if any("<" in t or ">" in t for t in extra_strings(case["extra"])):
         return True
     return analyse(case, o)[0]
 
@@ -210,7 +244,7 @@ def nontrivial(case, o):
     if isinstance(o, G.Tag):
         return ("err", case["text"])
     if isinstance(o, str) and ("<a " in o or ":/" in case["text"] or "www." in case["text"]):
-        return (case["text"], case["bytes"], case["sh"], case["extra"], case["req"], tuple(case["perms"]))
+        return (case["text"], case["bytes"], case["sh"], repr(case["extra"]), case["req"], tuple(case["perms"]), case.get("pset", False))
     return None
 
 
@@ -220,6 +254,9 @@ def classify(case, o):
         return
     yield "kind=link"
     yield "shorten=%s require=%s" % (case["sh"], case["req"])
+    yield "extra=" + ("str" if isinstance(case["extra"], str) else "callable-" + case["extra"]["f"])
+    if case.get("pset"):
+        yield "permitted=set"
     if isinstance(o, G.Tag) or not isinstance(o, str):
         yield "result=error"
         return
@@ -363,6 +400,9 @@ def corpus_cases():
         mk("hello http://www.tornadoweb.org/en/stable/guide/intro.html there", sh=True),
         mk("ftp://ftp.x.org http://y.org", perms=["ftp"]), mk("A javascript:alert(1) link", perms=["javascript"]),
         mk("www.external-link.com", extra='rel="nofollow" class="external"'),
+        mk("www.external-link.com http://example.com/x", extra={"f": "prefix", "p": "http://example.com", "a": 'class="internal"', "b": 'class="external" rel="nofollow"'}),
+        mk("http://www.example.com/abcde&fgh/ijkl?x=1 www.a.b", sh=True, extra={"f": "wrap", "a": 'data-u="', "b": '"'}, pset=True),
+        mk("www.a.b", extra={"f": "const", "s": ""}),
         mk("http:///", ), mk("http:////x"), mk("a-b://x", perms=["a-b"]), mk("-a://x", perms=["-a"]), mk("x-a://b", perms=["a"]),
         mk(b"caf\xc3\xa9 http://x.y/\xc3\xa9".decode("latin-1"), is_bytes=True), mk("\xff http://x.y", is_bytes=True),
         mk(""), mk("www."), mk("www.&"), mk("www.a&b"), mk("www.(a)"), mk("www.(a"), mk("www.a.(b)"), mk("http://a(b)www.c"),
@@ -378,7 +418,7 @@ def gen_cases(rng, tier):
         t = gen_text(rng)
         for sh in (False, True):
             for req in (False, True):
-                out.append(mk(t, sh, EXTRAS[k % len(EXTRAS)], req, PERMS[(k // 3) % len(PERMS)]))
+                out.append(mk(t, sh, EXTRAS[k % len(EXTRAS)], req, PERMS[(k // 3) % len(PERMS)], pset=(k % 5 == 0)))
                 k += 1
     sweep = cut_sweep()
     if tier == "quick":
